@@ -5,7 +5,7 @@
    implementation's solution is CHECKED against them exactly (in Q) by the correspondence run. *)
 From Coq Require Import List Reals QArith.
 From FDAV Require Import Base.Num Base.Vec Model.Basis Model.Pspline
-  Lemmas.Vec Lemmas.Gram Lemmas.Pspline Lemmas.PsplineConst Lemmas.PsplineLinear Lemmas.PsplineQuadratic Lemmas.Fcptpa Lemmas.PsplineTensor Lemmas.PsplineTensor2.
+  Lemmas.Vec Lemmas.Gram Lemmas.Pspline Lemmas.PsplineConst Lemmas.PsplineLinear Lemmas.PsplineQuadratic Lemmas.Fcptpa Lemmas.PsplineTensor Lemmas.PsplineTensor2 Lemmas.PsplineTensor3.
 Import ListNotations.
 Local Open Scope R_scope.
 
@@ -80,8 +80,7 @@ Print Assumptions C05_diff_annihilates_quadratic.
    linear splines: C05_quadratic_reproduced, via the quadratic case of Marsden's identity, Lemmas/Marsden2.v).
    2-D (tensor-product) case: C05_tensor_reproduced below (generic: Kronecker products of marginal coefficient vectors
    annihilated by the marginal difference matrices) and C05_biquadratic_reproduced (products of quadratics, order >= 3);
-   sums of such products follow from C05_fit_linear_in_y.  C05_poly_reproduction_partial: the 3-D case is monitored on
-   the implementation, not proved (same argument, one more Kronecker factor). *)
+   sums of such products follow from C05_fit_linear_in_y; 3-D: C05_tensor3_reproduced (design3 / pens3). *)
 Theorem C05_difference_penalty_annihilates_constants : forall c nb d,
   mv opsR (diffmat opsR nb (S d)) (repeat c nb) = zeros opsR (length (diffmat opsR nb (S d))).
 Proof. exact diffmat_const. Qed.
@@ -151,6 +150,20 @@ Theorem C05_biquadratic_reproduced : forall a1 b1 nseg1 p1 a2 b2 nseg2 p2,
   nth k (fitted opsR (design2 opsR R1 R2) beta) 0 = nth k y 0.
 Proof. exact biquadratic_reproduced. Qed.
 Print Assumptions C05_biquadratic_reproduced.
+Theorem C05_tensor3_reproduced : forall nb1 nb2 nb3 d l1 l2 l3 (R1 R2 R3 : list (list R)) (c1 c2 c3 w beta : list R) k,
+  wfB nb1 R1 -> wfB nb2 R2 -> wfB nb3 R3 -> length c1 = nb1 -> length c2 = nb2 -> length c3 = nb3 ->
+  mv opsR (diffmat opsR nb1 d) c1 = zeros opsR (length (diffmat opsR nb1 d)) ->
+  mv opsR (diffmat opsR nb2 d) c2 = zeros opsR (length (diffmat opsR nb2 d)) ->
+  mv opsR (diffmat opsR nb3 d) c3 = zeros opsR (length (diffmat opsR nb3 d)) ->
+  length beta = (nb1 * nb2 * nb3)%nat -> Forall (fun v => 0 <= v) w -> 0 <= l1 -> 0 <= l2 -> 0 <= l3 ->
+  Aop opsR (nb1 * nb2 * nb3) (design3 opsR R1 R2 R3) w (pens3 opsR nb1 nb2 nb3 d l1 l2 l3) beta
+    = rhs opsR (nb1 * nb2 * nb3) (design3 opsR R1 R2 R3) w
+        (kron opsR (kron opsR (mv opsR R1 c1) (mv opsR R2 c2)) (mv opsR R3 c3)) ->
+  (k < length R1 * length R2 * length R3)%nat -> (k < length w)%nat -> 0 < nth k w 0 ->
+  nth k (fitted opsR (design3 opsR R1 R2 R3) beta) 0
+  = nth k (kron opsR (kron opsR (mv opsR R1 c1) (mv opsR R2 c2)) (mv opsR R3 c3)) 0.
+Proof. exact tensor3_reproduced. Qed.
+Print Assumptions C05_tensor3_reproduced.
 
 (* leverages lie in [0,1] *)
 Theorem C05_leverage_in_unit_interval : forall nb B w pens i z, wfB nb B -> wfP nb pens -> length z = nb ->
